@@ -3,7 +3,11 @@
 // replacement of math/rand's global permutation.
 package simrt
 
-import "math/rand"
+import (
+	"io"
+	"math/rand"
+	"os"
+)
 
 // YieldHook is called at planted schedule points with the site label.
 var YieldHook func(site string)
@@ -22,4 +26,56 @@ func Perm(n int) []int {
 		return h(n)
 	}
 	return rand.Perm(n)
+}
+
+// FileHook, when set, is told about the file-level steps of the code that writes key, group and
+// share files: "create" / "open" (after the call; trunc tells whether the file was emptied),
+// "write" (before the call: the return value is how many of the n bytes may be written; fewer
+// than n means a torn write, after which "torn" is called and is expected not to return),
+// "rename" (after the call, path = the new name).
+var FileHook func(op, path string, n int, trunc bool) int
+
+func Create(name string) (*os.File, error) {
+	f, err := os.Create(name)
+	if h := FileHook; h != nil && err == nil {
+		h("create", name, 0, true)
+	}
+	return f, err
+}
+
+func OpenFile(name string, flag int, perm os.FileMode) (*os.File, error) {
+	f, err := os.OpenFile(name, flag, perm)
+	if h := FileHook; h != nil && err == nil && flag&(os.O_WRONLY|os.O_RDWR) != 0 {
+		h("open", name, 0, flag&os.O_TRUNC != 0)
+	}
+	return f, err
+}
+
+func Rename(oldpath, newpath string) error {
+	err := os.Rename(oldpath, newpath)
+	if h := FileHook; h != nil && err == nil {
+		h("rename", newpath, 0, false)
+	}
+	return err
+}
+
+type hookedWriter struct{ f *os.File }
+
+// W wraps a file handed to an encoder so that its writes are visible to FileHook.
+func W(w io.Writer) io.Writer {
+	if f, ok := w.(*os.File); ok && FileHook != nil {
+		return &hookedWriter{f}
+	}
+	return w
+}
+
+func (w *hookedWriter) Write(p []byte) (int, error) {
+	if h := FileHook; h != nil {
+		if n := h("write", w.f.Name(), len(p), false); n >= 0 && n < len(p) {
+			k, err := w.f.Write(p[:n])
+			h("torn", w.f.Name(), k, false)
+			return k, err
+		}
+	}
+	return w.f.Write(p)
 }
